@@ -24,8 +24,8 @@ enum {
 static const int CUTOFFS[] = {0, 0, 1, 63, 64, 64, 65, 100, 128, 128, 192, 256, 512, 1000, 2048, 4096};
 static const int KS[] = {-1, 0, 0, 1, 2, 3, 4, 5, 6, 7, 8, 9, 10, 16, 17, 1000};
 
-static int eff_cutoff(int cutoff) {
-  if (cutoff == 0) cutoff = __M4RI_STRASSEN_MUL_CUTOFF;
+static int eff_cutoff2(int cutoff, int dflt) {
+  if (cutoff == 0) cutoff = dflt;
   cutoff = cutoff / 64 * 64;
   if (cutoff < 64) cutoff = 64;
   return cutoff;
@@ -72,7 +72,8 @@ static void gen_mul(opcase_t *c, rng_t *r, int maxdim) {
     clear = rng_int(r, 0, 1);
     accumulate = !clear;
   }
-  int ce = eff_cutoff(cutoff);
+  int ce = eff_cutoff2(cutoff, GC.strassen_cutoff);            /* aims the shapes */
+  int ce_here = eff_cutoff2(cutoff, __M4RI_STRASSEN_MUL_CUTOFF); /* labels the regime in this build */
   int sp[32], nsp = 0;
   int q = (4 * ce + 2) / 3;
   sp[nsp++] = q - 1;
@@ -88,10 +89,10 @@ static void gen_mul(opcase_t *c, rng_t *r, int maxdim) {
   sp[nsp++] = 3 * ce;
   sp[nsp++] = 4 * ce + 5;
   sp[nsp++] = (8 * ce + 2) / 3 + 1;
-  sp[nsp++] = __M4RI_MUL_BLOCKSIZE - 1;
-  sp[nsp++] = __M4RI_MUL_BLOCKSIZE;
-  sp[nsp++] = __M4RI_MUL_BLOCKSIZE + 1;
-  sp[nsp++] = 2 * __M4RI_MUL_BLOCKSIZE + 3;
+  sp[nsp++] = GC.mul_block - 1;
+  sp[nsp++] = GC.mul_block;
+  sp[nsp++] = GC.mul_block + 1;
+  sp[nsp++] = 2 * GC.mul_block + 3;
   int m, l, n;
   if (v == V_SQR || v == V_ADDSQR) {
     m = l = n = gen_dim_sp(r, sp, nsp, maxdim);
@@ -135,7 +136,7 @@ static void gen_mul(opcase_t *c, rng_t *r, int maxdim) {
   const char *reg = "cubic";
   int depth = 0, emptyq = 0, strips = 0;
   if (v == V_MUL || v == V_ADDMUL || v == V_SQR || v == V_ADDSQR || v == V_MUL_MP || v == V_ADDMUL_MP) {
-    strassen_regime(m, l, n, ce, &depth, &emptyq, &strips);
+    strassen_regime(m, l, n, ce_here, &depth, &emptyq, &strips);
     if (emptyq)
       reg = "emptyquad";
     else if (depth > 0)
